@@ -181,6 +181,24 @@ func registerStd(e *Engine) {
 		st.heap[id] = NativeV{Tag: "chan-timer"}
 		return ChanRef{Obj: id}, true
 	})
+	// time.NewTimer: a *time.Timer whose channel C is the same kind of timer (fires only when nothing else is ready)
+	e.reg("time.NewTimer", func(e *Engine, st *State, cc *CallCtx) (Value, bool) {
+		tt := cc.Fn.Signature.Results().At(0).Type().(*types.Pointer).Elem()
+		sv := e.Zero(tt).(StructV)
+		ts := tt.Underlying().(*types.Struct)
+		chID := e.newObj()
+		st.dirty = true
+		st.heap[chID] = NativeV{Tag: "chan-timer"}
+		for i := 0; i < ts.NumFields(); i++ {
+			if ts.Field(i).Name() == "C" {
+				sv.F[i] = ChanRef{Obj: chID}
+			}
+		}
+		id := e.newObj()
+		st.heap[id] = sv
+		return Ptr{Obj: id}, true
+	})
+	e.reg("(*time.Timer).Stop", func(e *Engine, st *State, cc *CallCtx) (Value, bool) { return c.True(), true })
 	// regexp: opaque native regexps, usable on concrete strings only
 	reCompile := func(must bool) NativeFn {
 		return func(e *Engine, st *State, cc *CallCtx) (Value, bool) {
@@ -284,6 +302,39 @@ func registerStd(e *Engine) {
 				}
 			}
 			return c.False(), true
+		}
+		return c.False(), true
+	})
+	// errors.As(err, &target) for a target of concrete (non-interface) type: walks the same wrappers as errors.Is
+	e.reg("errors.As", func(e *Engine, st *State, cc *CallCtx) (Value, bool) {
+		err := cc.Args[0].(IfaceV)
+		tgt := cc.Args[1].(IfaceV)
+		pt, ok := tgt.T.(*types.Pointer)
+		if !ok {
+			panic(unsupported("errors.As: target is not a pointer"))
+		}
+		want := pt.Elem()
+		if types.IsInterface(want) {
+			panic(unsupported("errors.As with an interface target"))
+		}
+		for depth := 0; depth < 16 && err.T != nil; depth++ {
+			if types.Identical(err.T, want) {
+				e.store(st, tgt.V.(Ptr), err.V, want)
+				return c.True(), true
+			}
+			if strings.HasSuffix(err.T.String(), "fmt.wrapError") {
+				o := st.heap[err.V.(Ptr).Obj].(StructV)
+				err = o.F[1].(IfaceV)
+				continue
+			}
+			if strings.HasSuffix(err.T.String(), "fs.PathError") {
+				if p, ok := err.V.(Ptr); ok && !p.IsNil() {
+					o := e.objCell(st, p).(StructV)
+					err = o.F[2].(IfaceV)
+					continue
+				}
+			}
+			break
 		}
 		return c.False(), true
 	})
